@@ -134,10 +134,13 @@ func sizeField(rt *rapid.T, b []byte, sites []gen.Site) ([]byte, string, bool) {
 
 // previewFile: a camera-layout CR3 whose PRVW box states a preview size unrelated to what the file holds.
 func previewFile(rt *rapid.T) ([]byte, string) {
-	jpegLen := rapid.SampledFrom([]int{0, 10, 3000}).Draw(rt, "have")
+	jpegLen := rapid.SampledFrom([]int{0, 10, 3000, 3000, 3000, 3000, 70000, 300000, 400000}).Draw(rt, "have")
 	stated := rapid.SampledFrom(bigs).Draw(rt, "stated")
 	if rapid.IntRange(0, 3).Draw(rt, "near") == 0 {
 		stated = uint32(jpegLen + rapid.IntRange(-1, 70000).Draw(rt, "d"))
+	}
+	if jpegLen >= 70000 || rapid.IntRange(0, 4).Draw(rt, "honest") == 0 {
+		stated = uint32(jpegLen) // an honest file that is mostly preview: the cost must stay proportional to its size
 	}
 	f := make([]byte, 16)
 	binary.BigEndian.PutUint16(f[4:], 1)
@@ -146,7 +149,7 @@ func previewFile(rt *rapid.T) ([]byte, string) {
 	binary.BigEndian.PutUint16(f[10:], 1)
 	binary.BigEndian.PutUint32(f[12:], stated)
 	prvw := &gen.Box{Type: "PRVW", Data: append(f, make([]byte, jpegLen)...)}
-	if rapid.Bool().Draw(rt, "boxlies") { // the PRVW box itself also claims the stated size
+	if int(stated) != jpegLen && rapid.Bool().Draw(rt, "boxlies") { // the PRVW box itself also claims the stated size
 		prvw.Overstate = int64(stated) - int64(jpegLen)
 	}
 	pre := &gen.Box{Type: "uuid", Data: append(append([]byte{}, gen.UUIDPreview...), 0, 0, 0, 0, 0, 0, 0, 1), Kids: []*gen.Box{prvw}}
@@ -203,7 +206,7 @@ func init() { pbt.Register(chk) }
 
 func TestProp(t *testing.T) {
 	defer rec.MustWrite()
-	rec.Rule("inputs: repository samples and encoder output in every container with 1-3 count / size / length fields (IFD entry counts and unit counts, value offsets, box sizes incl. 64-bit, JPEG segment lengths, PNG chunk lengths, iloc / infe fields) overwritten by 2^24..2^32-1 or len(b)+-1 in either byte order, C01's hostile edits, and camera-layout CR3 files whose PRVW box states a preview size unrelated to the bytes present; every entry point incl. PreviewCR3. " +
+	rec.Rule("inputs: repository samples and encoder output in every container with 1-3 count / size / length fields (IFD entry counts and unit counts, value offsets, box sizes incl. 64-bit, JPEG segment lengths, PNG chunk lengths, iloc / infe fields) overwritten by 2^24..2^32-1 or len(b)+-1 in either byte order, C01's hostile edits, and camera-layout CR3 files whose PRVW box states a preview size unrelated to the bytes present, or honestly holds a preview of up to 400 KB; every entry point incl. PreviewCR3. " +
 		"Each call runs in an isolated worker (GOMAXPROCS=1, 8 GiB address-space limit) after one warming call of the same entry point; oracle: runtime.MemStats.TotalAlloc delta around the call <= 4 MiB + 16 x len(b); an out-of-memory death or a makeslice panic counts as a violation. " +
 		"non-trivial = the input carries >= 1 overwritten size/count field and the decode got past type identification; distinct by (entry, input)")
 	rec.Assume("TotalAlloc counts every heap allocation of the process during the call; the worker runs one request at a time")
